@@ -30,7 +30,10 @@ Tie on every run:
      release log through Pacing.v and pacing_bound.  PacingRule.v: any threshold rule bounded by max(INIT, GROWTH * survivors)
      keeps the bound; ratchet / damping / averaging are refuted by a grow-then-drop history and equal the source's rule
      while the survivors do not shrink.
- (g) the size the allocator charges against size_of::<T>() computed by the harness itself (TI record)."""
+ (g) the size the allocator charges against size_of::<T>() computed by the harness itself (TI record).
+ (h) live-set shapes (round 9): the loop-program oracle (b), (a), (c) with the bounded live set held during the loop as a scale
+     dimension: deep chains through 9 link kinds (ladder 17 ... 3000, mixed 12000), wide containers of 12 item kinds, many fibers,
+     deep class hierarchy, tree with parent links; anchored by a global / closed upvalue / suspended fiber / field; first in search()."""
 import json
 import os
 import re
@@ -218,7 +221,7 @@ def render_live(lv):
     loop = "{ var j = 0; while j < %d { %%s } }" % n
     if shape == "chain":
         kinds = lv["kinds"]
-        body = " ".join("%s j = j + 1;" % LIVE_LINK[k] for k in kinds)
+        body = " ".join("{ %s } j = j + 1;" % LIVE_LINK[k] for k in kinds)    # (own block: `var o_` of two field links must not collide)
         code = "{ var j = 0; while j < %d { %s } }" % (n - n % len(kinds), body)
     elif shape == "append":        # built from the head: the OLDEST link is the one the root points to
         code = "{ var t_ = A.new(); t_.x = 0; live_ = t_; var j = 1; while j < %d { var o_ = A.new(); o_.x = j; t_.nx = o_; t_ = o_; j = j + 1; } }" % n
